@@ -119,6 +119,7 @@ def make_machine(mod, col, kinds=None, faults='some', rich=True, degenerate=True
             self.ro_id = None
             self.mid = 0
             self.seen_s, self.seen_i = [], []
+            self.mids = []
 
         @initialize(ro=gen.running_order(max_stories=max_stories, max_items=3, rich=rich,
                                          timing_mode=timing_mode, simple_ids=simple_ids))
@@ -129,6 +130,7 @@ def make_machine(mod, col, kinds=None, faults='some', rich=True, degenerate=True
             self.hist = [ro['ro_xml']]
             self.ro_id = ro['ro_id']
             self.mid = ro['mid']
+            self.mids = [ro['mid']]
 
         @rule(data=st.data())
         def send(self, data):
@@ -142,7 +144,14 @@ def make_machine(mod, col, kinds=None, faults='some', rich=True, degenerate=True
                 for i in its:
                     if i not in self.seen_i:
                         self.seen_i.append(i)
-            self.mid += data.draw(st.integers(1, 120))
+            # one message in eight re-uses the messageID of an earlier message of the history (a
+            # different message with an ID already seen): a merge is decided by what the message
+            # names, never by whether its messageID has been met before
+            if len(self.mids) > 0 and data.draw(st.integers(0, 7)) == 0:
+                self.mid = data.draw(st.sampled_from(self.mids))
+                col.classes['history-step-reusing-an-earlier-messageID'] += 1
+            else:
+                self.mid = max([self.mid] + self.mids) + data.draw(st.integers(1, 120))
             try:
                 _kind, msg_xml = data.draw(gen.message(
                     state, self.ro_id, kinds=kinds, faults=faults, rich=rich, mid=self.mid,
@@ -155,12 +164,74 @@ def make_machine(mod, col, kinds=None, faults='some', rich=True, degenerate=True
                 return
             ev = live_step(self.ro, msg_xml, self.hist, as_bytes=self.as_bytes)
             self.hist.append(msg_xml)
+            self.mids.append(self.mid)
             mod.record(col, ev)
             if on_state is not None:
                 on_state(col, self.ro, self.hist)
             col.classes[f'history-depth>={min(len(self.hist) - 1, 20) // 5 * 5}'] += 1
 
     return History
+
+
+@drive.with_logging_config
+def shard_returning(args):
+    """Directed three-step histories on one live running order, judged step by step by the check
+    module: (1) an insert, (2) a message that takes a story (or an item) away again - every kind
+    that can: roStoryDelete, EA DELETE, roStoryReplace, EA REPLACE, roStorySend of the story,
+    roReplace, roItemDelete, EA item DELETE, roItemReplace - (3) a message that brings the removed
+    element back, next to a genuine duplicate and a new element.  Steps 1 and 2 share their
+    messageID in every other history.  Anything the running order remembers between merges
+    (a set of IDs, an index, the messageIDs seen) must not show."""
+    import itertools
+    from . import build as B
+    modname = args
+    mod = drive._mod(modname)
+    col = Collector(mod.PROP)
+    ro_xml = gen.ro_with_layout(['S0', 'S1', 'S2'], 'mixed', items_for={'S1': ['I0', 'I1']})
+
+    def envl(body, mid):
+        return B.tostring(B.envelope(body, mid))
+    n = 0
+    first = [lambda m: envl(B.story_insert('RO1', 'S1', [gen.plain_story('N0')]), m),
+             lambda m: envl(B.ea_story_insert('RO1', 'S2', [gen.plain_story('N0')]), m),
+             lambda m: envl(B.item_insert('RO1', 'S1', 'I1', [B.mk_item('J0')]), m)]
+    second = [lambda m: envl(B.story_delete('RO1', ['S0']), m),
+              lambda m: envl(B.ea_story_delete('RO1', ['S0']), m),
+              lambda m: envl(B.story_replace('RO1', 'S0', [gen.plain_story('N1')]), m),
+              lambda m: envl(B.ea_story_replace('RO1', 'S0', [gen.plain_story('N1')]), m),
+              lambda m: envl(B.ro_replace('RO1', [gen.plain_story('S1'), gen.plain_story('N1')]), m)]
+    third = [lambda m: envl(B.story_insert('RO1', 'S1', [gen.plain_story('N0'), gen.plain_story('S0'), gen.plain_story('N2')]), m),
+             lambda m: envl(B.ea_story_insert('RO1', 'S1', [gen.plain_story('S0'), gen.plain_story('N2')]), m),
+             lambda m: envl(B.story_append('RO1', [gen.plain_story('S0')]), m),
+             lambda m: envl(B.story_replace('RO1', 'S1', [gen.plain_story('S0')]), m),
+             lambda m: envl(B.ea_story_replace('RO1', 'S1', [gen.plain_story('S0')]), m)]
+    second_i = [lambda m: envl(B.item_delete('RO1', 'S1', ['I0']), m),
+                lambda m: envl(B.ea_item_delete('RO1', 'S1', ['I0']), m),
+                lambda m: envl(B.item_replace('RO1', 'S1', 'I0', [B.mk_item('J1')]), m),
+                lambda m: envl(B.ea_item_replace('RO1', 'S1', 'I0', [B.mk_item('J1')]), m),
+                lambda m: envl(B.story_send('RO1', 'S1', body=[_story_item('I1')]), m)]
+    third_i = [lambda m: envl(B.item_insert('RO1', 'S1', 'I1', [B.mk_item('I0'), B.mk_item('J2')]), m),
+               lambda m: envl(B.ea_item_insert('RO1', 'S1', 'I1', [B.mk_item('I0')]), m),
+               lambda m: envl(B.item_replace('RO1', 'S1', 'I1', [B.mk_item('I0')]), m),
+               lambda m: envl(B.ea_item_replace('RO1', 'S1', 'I1', [B.mk_item('I0')]), m)]
+    for fam, (f2, f3) in (('story', (second, third)), ('item', (second_i, third_i))):
+        for a, b, c in itertools.product(first, f2, f3):
+            for same_mid in (False, True):
+                msgs = [a(2001), b(2001 if same_mid else 2002), c(2003)]
+                for ev in replay_history([ro_xml] + msgs):
+                    mod.record(col, ev)
+                n += 1
+    col.classes['returning-element-histories'] += n
+    col.scopes.append(f'returning element: {n} three-step histories insert / take away (10 kinds) / bring back (9 kinds), '
+                      'with and without a shared messageID')
+    return col
+
+
+def _story_item(iid):
+    from . import build as B
+    it = B.mk_item(iid)
+    it.tag = 'storyItem'
+    return it
 
 
 def run_machine(machine, runs, steps, seed):
